@@ -5,6 +5,18 @@ V = os.path.dirname(os.path.dirname(os.path.abspath(__file__)))
 
 # id: (level, engine, technique, level text, level note, design section)
 CHECKS = {
+ "C11": ("model_checking", "e2",
+  "the XOR reader as a state machine: ALL operation sequences up to depth 3 (thorough 4) over a 63-operation alphabet x 14 keys x 5 buffer capacities executed on the real XorReader<seek_bufread::BufReader> and compared step by step with a plain-slice reference; plus whole-program differential runs (obfuscated vs plaintext directory) over all layouts of C03",
+  "17.8 million (quick) operation sequences on the real reader type built exactly as BlkFile::open builds it, every returned byte and position compared; and ~3500 runs of the real binary over all arrangements of the blocks in <=3 files, 8 keys, blocks larger than the 32 KiB buffer and >4 GiB sparse offsets, each compared with the plaintext directory's output and the model.",
+  "Seeks to negative positions are not executed (never needed to visit a block; seek_bufread panics on them in debug builds). Empty xor.dat is outside the statement.", "6/C11"),
+ "C14": ("exploration", "e2",
+  "totality sweep: every script of the C05/C06 families plus length/encoding extremes evaluated in-process under catch_unwind with overflow checks for all 8 coins; ~300 adversarial strings injected into scriptPubKey / scriptSig / witness items of a host chain and run through all callbacks of the real binary with masked comparison against the model",
+  "4.3 million in-process evaluations (no panic allowed) and 864 whole-program worlds (8 coins x 3 fields x callbacks x batches of 50 strings, bisected on failure): exit 0, no panic text, and all rows/figures outside the injected cell equal the model.",
+  "Dev-profile semantics (overflow checks on). Value sums kept < 2^63. Strings up to 100 KB.", "6/C14"),
+ "C15": ("exploration", "e1",
+  "bounded-exhaustive enumeration of chains (all timestamp sequences over {1,1000,4e9} of length 1..4 x 5 transaction mixes, reward-boundary heights, every script class) run through simplestats of the real binary; every figure of the parsed report compared with an exact integer/rational recomputation; get_mean exhaustively on all short sequences over {0,1,2^31,2^32-1}",
+  "826 whole-program runs + 341 in-process get_mean evaluations: integers must be equal, printed decimals must lie within half a unit of the last printed digit of the exact rational, type lines are compared as a map, ties resolve to the first transaction.",
+  "Not covered: value sums >= 2^64, header time 0 (the code's 'no previous block' sentinel), coinbases without outputs.", "6/C15"),
  "C05": ("exploration", "e2",
   "complete enumeration of byte-string families (all scripts of length <=2, every 1-byte mutation/truncation/extension of every template, witness and multisig lookalike grids, all token sequences up to length 4/5) evaluated in-process by the repository's own eval_from_bytes and compared with an independent byte-level reference classifier with own Base58Check/Bech32(m) codecs; bound to the binary's output by class-representative worlds",
   "2.2 million (quick) scripts per run cover every listed family completely on bitcoin and testnet3; type label and address must equal the reference rules, addresses are additionally decoded by the model's own decoders on mismatch. One world per network with a representative of every class is run through all five callbacks of the real binary so that what is printed is what was evaluated.",
